@@ -14,7 +14,7 @@ META = {
                    'closed); R04.4 every emission is on the true edge of an ordered width > 0 test (NaN rejected), same for the dash period; '
                    'R04.5 stroke = fill(stroke_to_path(dash?(flatten(path, scaled tolerance))), src, options), dashing skipped only for an '
                    'empty dash array; R11.3 the tolerance scales with the transform.',
-    'decides': ['R04.6 interior-angle normalisation flips and exchanges the normals', 'R04.7 segment rectangles, square caps and bevels are wound the same way (signed-area polynomials have one common sign)', 'R04.1 join and cap dispatch', 'R04.2 caps at both ends of open subpaths only', 'R04.3 joins at interior and closing vertices', 'R04.4 width guard rejects non-positive and NaN', 'R04.5 stroke pipeline', 'R11.3 tolerance scaled by the transform'],
+    'decides': ['R04.15 no ordering comparison of floats other than the width test guards a join or cap', 'R04.6 interior-angle normalisation flips and exchanges the normals', 'R04.7 segment rectangles, square caps and bevels are wound the same way (signed-area polynomials have one common sign)', 'R04.1 join and cap dispatch', 'R04.2 caps at both ends of open subpaths only', 'R04.3 joins at interior and closing vertices', 'R04.4 width guard rejects non-positive and NaN', 'R04.5 stroke pipeline', 'R11.3 tolerance scaled by the transform'],
     'does_not_decide': ['geometry: which side is outer, the miter-limit inequality, arc accuracy, cap extents, pixel margins (numeric)'],
     'assumptions': ['Path::flatten emits only MoveTo/LineTo/Close (R16.1)'],
     'trusted_base': ['euclid 0.22.14'],
